@@ -18,16 +18,19 @@ use std::collections::HashMap;
 pub struct Scenario {
     pub lines: Vec<String>,
     pub key_seed: u64,
+    /// (search ordinal, clock read) at which clock-limited searches of the session are cut
+    pub forced: Vec<(u64, u64)>,
 }
 
 impl Scenario {
     pub fn to_json(&self) -> Value {
-        json!({"lines": self.lines, "key_seed": self.key_seed})
+        json!({"lines": self.lines, "key_seed": self.key_seed, "forced": self.forced.iter().map(|(a, b)| json!([a, b])).collect::<Vec<_>>()})
     }
     pub fn from_json(v: &Value) -> Option<Scenario> {
         Some(Scenario {
             lines: v["lines"].as_array()?.iter().map(|x| x.as_str().unwrap_or("").to_string()).collect(),
             key_seed: v["key_seed"].as_u64().unwrap_or(0),
+            forced: v["forced"].as_array().map(|a| a.iter().filter_map(|p| Some((p[0].as_u64()?, p[1].as_u64()?))).collect()).unwrap_or_default(),
         })
     }
 }
@@ -81,7 +84,8 @@ pub fn run_scenario(sc: &Scenario) -> Judged {
     };
     let mut st = SimState::new(sc.key_seed, 0);
     st.max_nodes_per_search = 2_000_000;
-    st.ev(&format!("cfg c09 key_seed={}", sc.key_seed));
+    st.clock.forced_expiry = sc.forced.clone();
+    st.ev(&format!("cfg c09 key_seed={} forced={:?}", sc.key_seed, sc.forced));
     let (mut sess, o) = StepSession::start(st);
     if o != Outcome::Returned {
         j.violations.push(("crash".into(), format!("engine start: {:?}", o)));
@@ -183,6 +187,30 @@ pub fn run_scenario(sc: &Scenario) -> Judged {
                     }
                 }
                 let _ = last;
+            }
+            "go" if line.contains("movetime 100000000") => {
+                // a clock-limited search cut by the clock: the verdicts must be what they were
+                go_since_newgame = true;
+                j.probes.add("interrupted_searches_followed_by_verdict_queries", 1);
+                let occs = occurrences(&history);
+                let root = sess.board();
+                let succ_boards: Vec<(String, engine::board::Board)> = with_bench(|b| b.reference.gen.generate_moves(&root).iter().map(|m| (m.to_algebraic(), root.clone_with_move(m))).collect());
+                for oc in &occs {
+                    let Some((_, sb)) = succ_boards.iter().find(|(u, _)| *u == oc.mv.uci()) else { continue };
+                    if (oc.occ_recorded >= 2) != (oc.occ_fide >= 2) {
+                        continue;
+                    }
+                    let want = oc.occ_recorded >= 2;
+                    let fl = sess.fl.as_mut().unwrap();
+                    let (_, got) = sess.proc_.run(|| fl.verif_searcher().verif_is_repetition_draw(&root, sb));
+                    let Some(got) = got else { break };
+                    j.successors_checked += 1;
+                    if got != want {
+                        let class = if want { "third_occurrence_not_draw" } else { "draw_claimed_too_early" };
+                        j.violations.push((class.into(), format!("after '{}' and a go cut by the clock: move {} leads to a position that occurred {} time(s) before; engine's repetition verdict is {}", shorten(&sc.lines.iter().rev().find(|l| l.starts_with("position")).cloned().unwrap_or_default()), oc.mv.uci(), oc.occ_recorded, got)));
+                        break 'lines;
+                    }
+                }
             }
             "go" => {
                 // (2) black box, depth 1 only, and only when no earlier search of this game
@@ -466,7 +494,7 @@ pub fn generate(seed: u64) -> Scenario {
             lines.push("ucinewgame".to_string());
             lines.push(format!("position fen {} moves {}", start.to_fen(), gen::moves_uci(&ms).join(" ")));
             lines.push(depth1_go(&mut rng));
-            return Scenario { lines, key_seed: rng.next_u64() };
+            return Scenario { lines, key_seed: rng.next_u64(), forced: vec![] };
         }
     }
     if rng.chance(1, 12) {
@@ -487,7 +515,7 @@ pub fn generate(seed: u64) -> Scenario {
             lines.push("ucinewgame".to_string());
             lines.push(format!("position {} moves {}", root, gen::moves_uci(&ms).join(" ")));
             lines.push(depth1_go(&mut rng));
-            return Scenario { lines, key_seed: rng.next_u64() };
+            return Scenario { lines, key_seed: rng.next_u64(), forced: vec![] };
         }
     }
     let games = rng.range(1, 2);
@@ -528,9 +556,22 @@ pub fn generate(seed: u64) -> Scenario {
             }
         }
     }
+    // in one session of five a clock-limited go is cut by the clock right after the first
+    // position command that has a history, and the repetition verdicts are asked again: an
+    // interrupted search must not turn positions seen fewer than twice into draws
+    let mut forced = vec![];
+    if rng.chance(1, 5) {
+        if let Some(i) = lines.iter().position(|l| l.starts_with("position") && l.contains(" moves ")) {
+            // search ordinal = number of go lines before the insertion point
+            let ord = lines[..=i].iter().filter(|l| l.starts_with("go")).count() as u64;
+            lines.insert(i + 1, format!("go movetime {}", 100_000_000u64));
+            forced.push((ord, rng.log_range(1, 3000)));
+        }
+    }
     Scenario {
         lines,
         key_seed: rng.next_u64(),
+        forced,
     }
 }
 
